@@ -458,7 +458,8 @@ var stCounter = stats.New("counter")
 
 func TestC11Counter(t *testing.T) {
 	rapid.Check(t, func(t *rapid.T) {
-		s := genSet(t, 8)
+		// mostly small sets; some with more members than one machine word of "already counted" flags
+		s := genSet(t, rapid.SampledFrom([]int{8, 8, 8, 8, 40, 70, 130}).Draw(t, "maxMembers"))
 		v := s.build(rapid.Bool().Draw(t, "viaBuilder"))
 		T, n, q := s.Total, len(s.IDs), refQuorum(s.Total)
 		im := indexMap(t, s, v)
@@ -549,6 +550,9 @@ func TestC11Counter(t *testing.T) {
 		}
 		if T >= maxTotal-6 {
 			classes = append(classes, "total_near_max")
+		}
+		if n > 32 {
+			classes = append(classes, "more_than_32_members")
 		}
 		stCounter.Case(stats.Hash(s.IDs, s.W, hist), boundary, classes...)
 		stCounter.Class("count_calls", int64(nops))
